@@ -118,7 +118,7 @@ M('c07_feed_picker_dropped', ['C07'], ['C07-R6'], 'Feed may list the receiver it
 M('c07_count_before_encode', ['C07'], ['C07-R4'], 'member counted before it is encoded',
   (LIB, '                    let pos = buf.get_ref().len();\n', '                    num_items += 1;\n                    let pos = buf.get_ref().len();\n'),
   (LIB, '                        break;\n                    }\n                    num_items += 1;\n', '                        break;\n                    }\n'))
-M('c07_truncate_dropped', ['C07', 'C20'], ['C07-R4'], 'half-encoded member left in the datagram',
+M('c07_truncate_dropped', ['C07', 'C20'], ['C07-R4', 'C20-R5'], 'half-encoded member left in the datagram',
   (LIB, '                        buf.get_mut().truncate(pos);\n', ''))
 M('c07_header_incarnation_zero', ['C07', 'C10'], ['C07-R1'], 'header carries incarnation 0 instead of the current one',
   (LIB, '            src_incarnation: self.incarnation,\n            dst: dst.clone(),', '            src_incarnation: Incarnation::default(),\n            dst: dst.clone(),'))
@@ -740,15 +740,10 @@ M('c20_bincode_member_other_config', ['C20'], ['C20-R3'], 'bincode members are d
         bincode::serde::decode_from_std_read(&mut reader, self.0).map_err(Error::Decode)''', '''    fn decode_member(&mut self, buf: impl bytes::Buf) -> Result<Member<T>, Self::Error> {
         let mut reader = buf.reader();
         bincode::serde::decode_from_std_read(&mut reader, bincode::config::legacy()).map_err(Error::Decode)'''))
-M('c20_advance_on_error', ['C20'], ['C20-R2'], 'a failed postcard decode still moves the cursor',
+M('c20_skip_marker_byte', ['C20'], ['C20-R2'], 'decode_member silently skips a leading 0xff byte',
   (POSTCARD, '''    fn decode_member(&mut self, mut buf: impl Buf) -> Result<Member<T>, Self::Error> {
-        let remaining = buf.remaining();
-        debug_assert_eq!(remaining, buf.chunk().len());
-        let (member, rest) = postcard::take_from_bytes(buf.chunk())?;''', '''    fn decode_member(&mut self, mut buf: impl Buf) -> Result<Member<T>, Self::Error> {
-        let remaining = buf.remaining();
-        debug_assert_eq!(remaining, buf.chunk().len());
-        let res = postcard::take_from_bytes(buf.chunk());
-        if res.is_err() && remaining > 0 {
+        let remaining = buf.remaining();''', '''    fn decode_member(&mut self, mut buf: impl Buf) -> Result<Member<T>, Self::Error> {
+        if buf.chunk().first() == Some(&0xff) {
             buf.advance(1);
         }
-        let (member, rest) = res?;'''))
+        let remaining = buf.remaining();'''))
